@@ -1,6 +1,7 @@
 package props
 
 import (
+	"encoding/json"
 	"errors"
 	"fmt"
 	"strings"
@@ -61,6 +62,14 @@ func c07Kinds() []c07kind {
 		{name: "filter-error-in-assign", src: func(string) string { return "{% assign z = 1 | vfail %}" }, render: true, cause: 2},
 		{name: "filter-error-in-if", src: func(string) string { return "{% if 1 | vfail %}{% endif %}" }, render: true, cause: 2},
 		{name: "filter-error-in-elsif", src: func(string) string { return "{% if false %}\n{% elsif 1 | vfail %}{% endif %}" }, render: true, cause: 2, offset: after("{% elsif")},
+		{name: "filter-error-in-unless", src: func(string) string { return "{% unless 1 | vfail %}x{% endunless %}" }, render: true, cause: 2},
+		{name: "filter-error-in-unless-else", src: func(string) string { return "{% unless 1 | vfail %}x{% else %}\ny{% endunless %}" }, render: true, cause: 2},
+		{name: "unknown-filter-in-unless", src: func(n string) string { return "{% unless 1 | nosuchfilter_" + n + " %}{% endunless %}" }, render: true, mustName: "nosuchfilter_%s"},
+		{name: "division-by-zero-in-unless", src: func(string) string { return "{% unless 1 | divided_by: 0 %}{% endunless %}" }, render: true, cause: 1},
+		{name: "conversion-error-in-unless", src: func(string) string { return "{% unless \"x\" | plus: 1 %}{% endunless %}" }, render: true, cause: 1},
+		{name: "conversion-error-json-number-int", src: func(string) string { return "{{ \"abcdef\" | slice: jn }}" }, render: true, cause: 1},
+		{name: "conversion-error-json-number-truncate", src: func(string) string { return "{{ \"abcdef\" | truncate: jbig }}" }, render: true, cause: 1},
+		{name: "conversion-error-json-number-float", src: func(string) string { return "{{ 1 | plus: jhuge }}" }, render: true, cause: 1},
 		{name: "filter-error-in-case", src: func(string) string { return "{% case 1 | vfail %}{% when 1 %}{% endcase %}" }, render: true, cause: 2},
 		{name: "filter-error-in-for", src: func(string) string { return "{% for q in one | vfail %}{% endfor %}" }, render: true, cause: 2},
 		{name: "filter-returns-sourceerror", src: func(string) string { return "{{ 1 | vinner }}" }, render: true, cause: 1, mustName: "vinner"},
@@ -206,7 +215,7 @@ func runC07(c *core.Ctx) {
 		if k.strict {
 			eng = es
 		}
-		b := map[string]any{"one": []any{1}, "empty": []any{}}
+		b := map[string]any{"one": []any{1}, "empty": []any{}, "jn": json.Number("2.5"), "jbig": json.Number("123456789012345678901234567890"), "jhuge": json.Number("1e999")}
 		if !c.Begin(fmt.Sprintf("%s path=%q start=%d entry=%d src=%s", k.name, path, start, entry, src)) {
 			continue
 		}
